@@ -27,7 +27,7 @@ VERIF = os.path.dirname(os.path.dirname(os.path.abspath(__file__)))
 REPO = os.environ.get("VERIF_REPO", "/repo")
 SPEC = os.path.join(VERIF, "spec")
 OVERLAY_SRC = os.path.join(VERIF, "harness", "overlay")
-NCPU = os.cpu_count() or 4
+NCPU = int(os.environ.get("VERIF_WORKERS", "0") or 0) or os.cpu_count() or 4
 
 GOENV = {
     "GOFLAGS": "-mod=mod",
@@ -145,6 +145,12 @@ def load_findings(prop=None):
         return []
     with open(p) as f:
         ents = json.load(f)["findings"]
+    d = os.path.join(VERIF, "known_findings.d")      # per-property drafts, merged before commit
+    if os.path.isdir(d):
+        for fn in sorted(os.listdir(d)):
+            if fn.endswith(".json"):
+                with open(os.path.join(d, fn)) as f:
+                    ents += json.load(f)["findings"]
     return [e for e in ents if prop is None or e["property"] == prop]
 
 
